@@ -29,6 +29,24 @@ const (
 	fEnumList = "C06-panic-object-in-enum-list"
 )
 
+// anyObjectInEnumList applies objectInEnumList to every variable, including the list literal
+// `[$v]` the gateway extracts around a variable used as a list item.
+func (c *Case) anyObjectInEnumList(vars *ir.Value) bool {
+	if vars == nil {
+		return false
+	}
+	for i := range c.Decls {
+		t, v := c.Decls[i].T(), vars.Get(c.Decls[i].Name)
+		if v != nil && strings.Contains(c.Query, "[$"+c.Decls[i].Name+"]") {
+			t, v = &ir.Type{Elem: t}, ir.List(v)
+		}
+		if objectInEnumList(&c.Schema, t, v, false, 0) {
+			return true
+		}
+	}
+	return false
+}
+
 // objectInEnumList: a list whose innermost type is an enum has (after list coercion) an
 // object element.
 func objectInEnumList(s *ir.Schema, t *ir.Type, v *ir.Value, inEnumList bool, depth int) bool {
@@ -176,9 +194,44 @@ func nullUnderDefaultedField(issues []ir.Issue) bool {
 	return len(issues) > 0
 }
 
+// scalarAtInputPosition: inside v (typed t) a position of input object type holds a number,
+// boolean or string. Default injection fails on such a position with an internal error,
+// which the list walker swallows while skipping the element.
+func scalarAtInputPosition(s *ir.Schema, t *ir.Type, v *ir.Value, depth int) bool {
+	if v == nil || v.K == ir.VNull || depth > 12 {
+		return false
+	}
+	if t.Elem != nil {
+		if v.K != ir.VList {
+			return scalarAtInputPosition(s, t.Elem, v, depth+1)
+		}
+		for _, x := range v.L {
+			if scalarAtInputPosition(s, t.Elem, x, depth+1) {
+				return true
+			}
+		}
+		return false
+	}
+	if s.KindOf(t.Name) != ir.KindInput {
+		return false
+	}
+	if v.K == ir.VNum || v.K == ir.VBool || v.K == ir.VStr {
+		return true
+	}
+	if v.K == ir.VObj {
+		for _, f := range s.Input(t.Name).Fields {
+			if scalarAtInputPosition(s, f.T(), v.Get(f.Name), depth+1) {
+				return true
+			}
+		}
+	}
+	return false
+}
+
 // shiftShape: somewhere in the value (including schema defaults that get injected) there is a
 // list whose innermost type is an input object and that has an element the default-injection
-// walker skips (a non-object, or null in a list of lists) before an element it rewrites.
+// walker skips (a non-object, null in a list of lists, or an element on which injection fails)
+// before an element it rewrites.
 func shiftShape(s *ir.Schema, t *ir.Type, v *ir.Value, depth int) bool {
 	if v == nil || v.K == ir.VNull || depth > 12 {
 		return false
@@ -197,7 +250,7 @@ func shiftShape(s *ir.Schema, t *ir.Type, v *ir.Value, depth int) bool {
 				if match && skipped {
 					return true
 				}
-				if !match {
+				if !match || scalarAtInputPosition(s, t.Elem, x, depth+1) {
 					skipped = true
 				}
 			}
@@ -235,6 +288,48 @@ func (c *Case) anyShiftShape(vars *ir.Value) bool {
 		}
 	}
 	return false
+}
+
+// jsonNeedsListCoercion: the JSON value has a single non-null value where the type is a list.
+func jsonNeedsListCoercion(s *ir.Schema, t *ir.Type, v *ir.Value, depth int) bool {
+	if v == nil || v.K == ir.VNull || depth > 12 {
+		return false
+	}
+	if t.Elem != nil {
+		if v.K != ir.VList {
+			return true
+		}
+		for _, x := range v.L {
+			if jsonNeedsListCoercion(s, t.Elem, x, depth+1) {
+				return true
+			}
+		}
+		return false
+	}
+	if s.KindOf(t.Name) == ir.KindInput && v.K == ir.VObj {
+		for _, f := range s.Input(t.Name).Fields {
+			if jsonNeedsListCoercion(s, f.T(), v.Get(f.Name), depth+1) {
+				return true
+			}
+		}
+	}
+	return false
+}
+
+// rawComparable: every variable that has a default is provided and no provided value relies
+// on list coercion.
+func (c *Case) rawComparable(vars *ir.Value) bool {
+	for i := range c.Decls {
+		d := &c.Decls[i]
+		v := vars.Get(d.Name)
+		if v == nil && d.Default != "" {
+			return false
+		}
+		if jsonNeedsListCoercion(&c.Schema, d.T(), v, 0) {
+			return false
+		}
+	}
+	return true
 }
 
 // ---- message parsing -----------------------------------------------------------------------------
@@ -404,12 +499,8 @@ func checkCase(c Case, o *pbt.Rec) pbt.Verdict {
 	}
 	res := rig.Execute(c.Query, rawVars, "")
 	if res.Panic != "" {
-		if strings.Contains(res.Panic, "inject_input_default_values.go") && varsObj != nil {
-			for i := range c.Decls {
-				if objectInEnumList(s, c.Decls[i].T(), varsObj.Get(c.Decls[i].Name), false, 0) {
-					return pbt.BadKnown(fEnumList, "default injection panics on an object inside a list of enums: %s\nquery: %s\nvariables: %s", firstLine(res.Panic), c.Query, c.Vars)
-				}
-			}
+		if strings.Contains(res.Panic, "inject_input_default_values.go") && c.anyObjectInEnumList(varsObj) {
+			return pbt.BadKnown(fEnumList, "default injection panics on an object inside a list of enums: %s\nquery: %s\nvariables: %s", firstLine(res.Panic), c.Query, c.Vars)
 		}
 		return pbt.Bad("Execute panicked: %s\nquery: %s\nvariables: %s", res.Panic, c.Query, c.Vars)
 	}
@@ -471,10 +562,35 @@ func checkCase(c Case, o *pbt.Rec) pbt.Verdict {
 		return pbt.Bad("coercible variables rejected%s", describe())
 	}
 
-	// -- VariablesValidator.Validate directly: decision and message clauses ----------------------------
+	// -- VariablesValidator.Validate on the raw operation ----------------------------------------------
+	// Without normalization the validator sees no list coercion and no variable defaults, so
+	// its decision is comparable only when neither is in play. Input field defaults are: a
+	// missing field with a default must be excused by the validator itself.
 	if c.VarsForm != "object" {
 		return pbt.OK // Execute only validates a variables object; nothing to call directly
 	}
+	if c.rawComparable(varsObj) {
+		o.Label("raw:comparable")
+		errRaw, pr := rig.ValidateRaw(c.Query, rawVars)
+		if pr != "" {
+			return pbt.Bad("VariablesValidator.Validate (raw) panicked: %s%s", pr, describe())
+		}
+		if (errRaw == nil) != want {
+			o.Label("raw:disagree")
+			switch {
+			case want:
+				return pbt.Bad("VariablesValidator.Validate on the raw operation rejects coercible variables: %v%s", errRaw, describe())
+			case onlyKinds(issues, ir.IssIntNotIntegral, ir.IssIntRange, ir.IssIDNotIntegral):
+				return pbt.BadKnown(fIntID, "raw validator: non-integral or out-of-range number admitted for Int/ID%s", describe())
+			case nullUnderDefaultedField(issues):
+				return pbt.BadKnown(fNullItem, "raw validator: null at a non-null position admitted because the enclosing input field has a default%s", describe())
+			}
+			return pbt.Bad("VariablesValidator.Validate on the raw operation admits invalid variables%s", describe())
+		}
+		o.Label("raw:agree")
+	}
+
+	// -- VariablesValidator.Validate directly: decision and message clauses ----------------------------
 	adm := rig.Admit(c.Query, rawVars, "")
 	if adm.Panic != "" {
 		return pbt.Bad("normalization panicked: %s", adm.Panic)
@@ -515,6 +631,9 @@ func checkCase(c Case, o *pbt.Rec) pbt.Verdict {
 	// defect that rewrote the variables before validation.
 	explain := func(named, msg string) (string, string) {
 		listMsg := strings.Contains(msg, `want: "[`) || strings.Contains(msg, "to be an object.")
+		if c.anyObjectInEnumList(varsObj) {
+			return fEnumList, "default injection treated a list of enums as a list of input objects and rewrote it before validation"
+		}
 		switch {
 		case listMsg && c.defaultNeedsListCoercion(varsObj):
 			return fSingle, "the rejection is about a default value that relies on list coercion and was injected as written"
